@@ -462,6 +462,7 @@ func run(s *core.Shard) {
 	runNames(s, n)
 	runEmptyNetworks(s, n+16)
 	runRefined(s, n+32)
+	runUnexternalised(s, n+90)
 	for j := 0; j < n; j++ {
 		if !s.Mine(j) {
 			continue
